@@ -2,6 +2,7 @@ package checks
 
 import (
 	"fmt"
+	"sync/atomic"
 
 	"github.com/hugelgupf/p9/p9"
 
@@ -30,6 +31,8 @@ type stepper struct {
 	quiet bool
 }
 
+var stepperCounter uint64
+
 func typOf(m p9.FileMode) byte {
 	switch {
 	case m.IsDir():
@@ -55,8 +58,13 @@ func newStepper(c *ev.Ctx, prop string, fs *memfs.FS, nconn int) *stepper {
 	})
 	for i := 0; i < nconn; i++ {
 		p := rawpeer.New(s.srv, altTransport())
-		if r := p.Version(1<<16, v7); !r.OK {
-			s.dead = true
+		// the server serves a connection that never negotiated as well (the
+		// default limits apply): every 11th stepper leaves Tversion out on its
+		// last connection
+		if skip := atomic.AddUint64(&stepperCounter, 1)%11 == 0 && i == nconn-1; !skip {
+			if r := p.Version(1<<16, v7); !r.OK {
+				s.dead = true
+			}
 		}
 		s.peers = append(s.peers, p)
 	}
@@ -144,6 +152,20 @@ func (s *stepper) judgeDone(conn int, req wire.Msg, res rawpeer.Result, calls []
 		s.c.Violation(fmt.Sprintf("%s:%s:%s", s.prop, kind, wire.TypeName(t)), det)
 	}
 	errno := res.Errno()
+	// EFAULT is what the server answers when a handler panicked. The backend
+	// here never returns it by itself: without an injected panic in one of this
+	// request's backend calls, EFAULT means the server panicked on its own.
+	if errno == EFAULT {
+		injected := false
+		for _, cl := range calls {
+			if cl.Fault != "" {
+				injected = true
+			}
+		}
+		if !injected {
+			viol("request-answered-EFAULT-without-a-backend-panic", nil)
+		}
+	}
 	switch {
 	case v.DontCare:
 		out.dontCare = true
